@@ -274,7 +274,11 @@ AutobinCoded(r, byname, fb) ==
        ELSE IF r.method = "amplicon" THEN AmpliconCoded(r, fb)
        ELSE HybridCoded(r, mp, rl2, byname, fb)
 (* bin sizes the code may return for a coded depth N / D (a float division chain: near-ties accepted both ways) *)
-SizesFor(r, q, none, mn, mx) == IF none THEN {NoneSize} ELSE CodedSizes(r.bpn, r.bpd, q[1], q[2], mn, mx, FALSE)
+(* a depth that is exactly 0 as a rational (every mapped read captured) comes out of the float chain as 0 or as a     *)
+(* rounding residue of either sign: None, or the limit on that side                                                 *)
+SizesFor(r, q, none, mn, mx) == IF none THEN {NoneSize}
+                                ELSE IF ZIsZero(q[1]) THEN {NoneSize, mn, mx}
+                                ELSE CodedSizes(r.bpn, r.bpd, q[1], q[2], mn, mx, FALSE)
 (* does the recorded output agree with the coded computation? *)
 DepthAgrees(o, q, none) == IF none THEN ObsNone(o) ELSE CloseRat(o, q[1], q[2])
 AutobinAgrees(r, byname, fb) ==
